@@ -1,5 +1,6 @@
 import ScriggoV.Spec.Slots
 import ScriggoV.Model.Dispatch
+import ScriggoV.Model.MacroFast
 import ScriggoV.Lemmas.SlotsHtml
 import ScriggoV.Lemmas.SlotsJs
 import ScriggoV.Lemmas.SlotsCss
@@ -262,6 +263,57 @@ theorem attr_entities_only_trusted :
 /-- toString returns bytes of the value only for the kind String -/
 theorem toString_val_only_string :
     (toStringTable.filter (fun e => e.2 == .val)).map (·.1) = ["String"] := by decide
+
+/-! ## Layer 3 — the fast paths of `{{ M(…) }}` and `{{ render "f" }}`
+
+A macro call shown directly and a `render` expression do not go through `renderer.Show`: the
+callee writes to the page, with the renderer the VM picks from (context, callee format). This is
+autoescaping only if, at every pair the emitter accepts, that choice does to the callee's output
+what `renderer.Show` does to a value of the callee's result type: write it as it is where
+`showIn<context>` writes that type raw, convert it where `showIn<context>` calls the converter.
+All tables are regenerated (`Gen/ShowFastPath`: canOptimizeShowMacro's condition, the render
+branch, OpCallMacro / OpCallIndirect / OpReturn; `Gen/ShowDispatch`: the write sites). -/
+
+/-- **Every pair accepted by `canOptimizeShowMacro` is one where the generic path converts
+nothing, or converts exactly as the VM does**: over all 6 × 14 (result format, context) pairs, if
+the guard holds then the context is a format context, OpCallIndirect chooses like OpCallMacro, and
+either the callee writes into the page's output (same renderer, or a fresh one with nothing done
+at return) and `showIn<ctx>` writes the result type with a raw write only, or the callee is
+buffered and converted at return and `showIn<ctx>` hands that type to the converter only.
+Accepted ⊆ {(f, f)} ∪ {pairs whose conversion is the VM's}. -/
+theorem macro_fast_path_sound : MacroFast.guardSound Gen.ShowFastPath.macroGuard = true := by decide
+
+/-- pointwise form -/
+theorem macro_fast_path_sound_at (f c : Nat) (hf : f ∈ MacroFast.formatCodes)
+    (hc : c ∈ MacroFast.contextCodes) (h : Gen.ShowFastPath.macroGuard f c = true) :
+    MacroFast.vmAgreesWithGeneric f c = true := by
+  have h0 := macro_fast_path_sound
+  unfold MacroFast.guardSound at h0
+  have h1 := (List.all_eq_true.mp h0) f hf
+  have h2 := (List.all_eq_true.mp h1) c hc
+  simpa [h] using h2
+
+/-- non-vacuity: the guard accepts the same-format pairs and Markdown in HTML; there the generic
+path is a raw write, respectively the converter; and HTML-escaping contexts are not identities -/
+example : MacroFast.acceptedPairs Gen.ShowFastPath.macroGuard ≠ [] := by decide
+example : Gen.ShowFastPath.macroGuard 5 1 = true ∧ MacroFast.genericConv 5 1 = some .converter ∧
+    MacroFast.vmAgreesWithGeneric 5 1 = true := by decide
+example : MacroFast.genericConv 1 1 = some .identity ∧ MacroFast.genericConv 0 1 = some .other := by decide
+
+/-- full statement for `{{ render "f" }}`: the *ast.Render branch takes the fast path only at
+sound pairs. **False of the code today** (known finding `render-fastpath-format`): the branch has
+no test at all, so e.g. a text file rendered in HTML is written raw where `showInHTML` escapes. -/
+def RenderFastPathSound : Prop := MacroFast.guardSound Gen.ShowFastPath.renderGuard = true
+
+/-- as far as it holds: either the branch is unguarded and the full statement is refuted by
+evaluation, or a guard has been added and it is sound. Green across the repair, red for a guard
+that is present but accepts an unsound pair. -/
+theorem render_fast_path_sound_partial :
+    (Gen.ShowFastPath.renderGuarded = false ∧ ¬ RenderFastPathSound) ∨
+    (Gen.ShowFastPath.renderGuarded = true ∧ RenderFastPathSound) := by
+  first
+  | exact Or.inl ⟨by decide, by unfold RenderFastPathSound; decide⟩
+  | exact Or.inr ⟨by decide, by unfold RenderFastPathSound; decide⟩
 
 /-! ## Layer 2 — refutation only -/
 
